@@ -430,9 +430,11 @@ def main():
     for nm, relx in (("CONTROL_READ_PERSISTS_SETTINGS", "wtransport/src/driver/streams/settings.rs"),
                      ("CONTROL_READ_PERSISTS_CONNECT", "wtransport/src/driver/streams/connect.rs")):
         sx = strip_tests(rd(repo, relx))
-        reads = len(re.findall(r"\bstream\s*\.read_frame\(\)\s*\.await", sx))
+        # every place the stream's frame reader is started (awaited directly or handed to a
+        # combinator such as `select!`): exactly one, the one inside the stored future
+        reads = len(re.findall(r"\bstream\s*\.read_frame\(\)", re.sub(r"//[^\n]*", "", sx)))
         if reads == 0:
-            raise Missing(f"{relx}: no `stream.read_frame().await`")
+            raise Missing(f"{relx}: no `stream.read_frame()`")
         held = re.search(r"self\.reading\s*=\s*Some\(Box::pin\(async move \{[^}]*?stream\.read_frame\(\)\.await", sx, re.S)
         polled = re.search(r"self\s*\.reading\s*\.as_mut\(\)", sx)
         persists = bool(held and polled and reads == 1)
